@@ -2,7 +2,7 @@
    Statements only; proofs are in Lemmas/LexerStateFacts.v.  The tokenizer, the parser automaton
    and hence the operator table are universally quantified. *)
 From Coq Require Import List ZArith Bool Arith.
-From YV Require Import Common.Corr Model.LexerState Lemmas.LexerStateFacts Gen.EngineFacts.
+From YV Require Import Common.Corr Model.LexerState Model.LexerStateReal Lemmas.LexerStateFacts Gen.EngineFacts.
 Import ListNotations.
 
 (* A parse call started on an engine whose lexer cells are in ANY state (left by earlier parses,
@@ -67,3 +67,15 @@ Proof. vm_compute. discriminate. Qed.
 Example C01_private_example :
   c01_run (refute_case true) = [[(false, 1); (false, 2); (true, 0)]; [(false, 1); (true, 0)]].
 Proof. vm_compute. reflexivity. Qed.
+
+(* The same, with the tokenizer instantiated by the lexer MODEL of C03/C16 on the actual texts "1 + 2" and "x"
+   (4 and 2 fetches): under the schedule 0 0 1 1 1 0 0 0 a private lexer per call gives both calls their own token
+   positions, while with the shared lexer call 0 sees end of input after its first token - "1 + 2" parses as "1",
+   exactly what was observed on the code before the repair. *)
+Example C01_real_lexer_example :
+  let t1 := [49; 32; 43; 32; 50]%Z in let t2 := [120]%Z in
+  let cse p := {| r_fetches := [(t1, 4); (t2, 2)]; r_threads := [t1; t2]; r_sched := [0; 0; 1; 1; 1; 0; 0; 0];
+                  r_priv := p; r_obs := [] |} in
+  c01r_run (cse true) = [[(false, 1); (false, 3); (false, 5); (true, 0)]; [(false, 1); (true, 0)]]
+  /\ c01r_run (cse false) = [[(false, 1); (true, 0); (true, 0); (true, 0)]; [(false, 1); (true, 0)]].
+Proof. vm_compute. split; reflexivity. Qed.
